@@ -99,8 +99,8 @@ def shared_lists(a, b, deep):
 
 
 def identity_facts(rng, cls):
-    """the four in-place / rebind facts of the heap model (append_keeps_item_list, delitem_rebinds_item_list,
-    setitem_existing_rebinds_values, popLast_keeps_item_list) observed on a real object -> list of complaints"""
+    """the in-place / rebind facts of the heap model (append_keeps_item_list, delitem_rebinds_item_list,
+    setitem_existing_rebinds_values, popLast_keeps_item_list, extend_keeps_item_list, clear_rebinds_item_list) observed on a real object -> list of complaints"""
     out = []
     m = build(rng, cls)
     m.append("k1", 1); m.append("k2", 2); m.append("k1", 3)
@@ -121,16 +121,33 @@ def identity_facts(rng, cls):
     del m["k2"]
     if items() is i0:
         out.append("__delitem__ edits the item list in place (the model rebinds it to a new list)")
+    # extend_keeps_item_list, clear_rebinds_item_list
+    i0 = items()
+    m.extend([("k1", 5), ("k3", 6)])
+    if items() is not i0:
+        out.append("extend() rebinds the item list (the model appends in place)")
+    i0 = items()
+    m.clear()
+    if items() is i0 or len(dict.keys(m)) != 0:
+        out.append("clear() empties the item list in place or keeps dict entries (the model rebinds to a new list and drops every entry)")
     return out
 
 
 def mutate_top(rng, m):
     r = rng.random()
     try:
-        if r < 0.3: m.append("zz", 99)
-        elif r < 0.5 and len(m): m.pop()
-        elif r < 0.7 and len(m): m[m[0][0]] = "changed"
-        elif r < 0.85 and len(m): del m[m[-1][0]]
+        if r < 0.2: m.append("zz", 99)
+        elif r < 0.35 and len(m): m.pop()
+        elif r < 0.5 and len(m): m[m[0][0]] = "changed"
+        elif r < 0.6 and len(m): del m[m[-1][0]]
+        elif r < 0.7: m.extend([("zz", 98), (m[0][0] if len(m) else "yy", 97)])
+        elif r < 0.8: m.update([(m[-1][0] if len(m) else "yy", "updated"), ("uu", 96)])
+        elif r < 0.85: m.clear()
+        elif r < 0.92:
+            import warnings
+            with warnings.catch_warnings():
+                warnings.simplefilter("ignore")
+                m.discard(m[0][0] if len(m) and rng.random() < 0.7 else "absent")
         else: m.insert(0, "first", 0)
     except Exception:
         pass
